@@ -351,4 +351,112 @@ theorem dagReady_perm {ctrl d d' : List Key} (h : d.Perm d') : dagReady ctrl d =
   · have hp' : p ∉ d' := fun x => hp (this.2 x)
     simp [hp, hp']
 
+/-! ### eager execution: a started node with a path to END is collected before END is ready -/
+
+theorem key_inj_of_nodup {l : List GNode} (h : (l.map (·.key)).Nodup) :
+    ∀ {a b : GNode}, a ∈ l → b ∈ l → a.key = b.key → a = b := by
+  induction l with
+  | nil => intro a b ha; cases ha
+  | cons x l ih =>
+    simp only [List.map_cons, List.nodup_cons, List.mem_map, not_exists, not_and] at h
+    intro a b ha hb hab
+    rcases List.mem_cons.1 ha with rfl | ha' <;> rcases List.mem_cons.1 hb with rfl | hb'
+    · rfl
+    · exact absurd hab.symm (h.1 b hb')
+    · exact absurd hab (h.1 a ha')
+    · exact ih h.2 ha' hb' hab
+
+/-- invariant of the eager loop -/
+structure EInv (g : GCase) (st : EState) : Prop where
+  doneStarted : ∀ k ∈ st.done, k ∈ st.started
+  predsDone : ∀ n ∈ g.nodes, n.key ∈ st.started → ∀ p ∈ n.preds, p ∈ st.done
+  startDone : startKey ∈ st.done
+  startedNode : ∀ k ∈ st.started, k = startKey ∨ ∃ n ∈ g.nodes, n.key = k
+
+theorem mem_eReady {g : GCase} {st : EState} {k : Key} (h : k ∈ eReady g st) :
+    ∃ n ∈ g.nodes, n.key = k ∧ ∀ p ∈ n.preds, p ∈ st.done := by
+  simp only [eReady, List.mem_map, List.mem_filter, Bool.and_eq_true, List.all_eq_true] at h
+  obtain ⟨n, ⟨hn, _, hp⟩, rfl⟩ := h
+  exact ⟨n, hn, rfl, fun p hpm => by simpa using hp p hpm⟩
+
+theorem einv_init {g : GCase} (hk : (g.nodes.map (·.key)).Nodup)
+    (hs : ∀ n ∈ g.nodes, n.key ≠ startKey) : EInv g (eInit g) := by
+  refine ⟨?_, ?_, ?_, ?_⟩
+  · intro k hkd
+    simp only [eInit, List.mem_singleton] at hkd
+    simp [eInit, hkd]
+  · intro n hn hst p hp
+    simp only [eInit, List.mem_append, List.mem_singleton] at hst
+    rcases hst with h | h
+    · exact absurd h (hs n hn)
+    · obtain ⟨n', hn', hkey, hpd⟩ := mem_eReady h
+      have := key_inj_of_nodup hk hn' hn hkey
+      subst this
+      exact hpd p hp
+  · simp [eInit]
+  · intro k hkst
+    simp only [eInit, List.mem_append, List.mem_singleton] at hkst
+    rcases hkst with h | h
+    · exact Or.inl h
+    · obtain ⟨n', hn', hkey, _⟩ := mem_eReady h
+      exact Or.inr ⟨n', hn', hkey⟩
+
+theorem einv_collect {g : GCase} (hk : (g.nodes.map (·.key)).Nodup) {st : EState} {k : Key}
+    (hI : EInv g st) (hks : k ∈ st.started) : EInv g (eCollect g st k) := by
+  obtain ⟨h1, h2, h3, h4⟩ := hI
+  refine ⟨?_, ?_, ?_, ?_⟩
+  · intro x hx
+    simp only [eCollect, List.mem_append, List.mem_singleton] at hx ⊢
+    rcases hx with hx | hx
+    · exact Or.inl (h1 x hx)
+    · exact Or.inl (hx ▸ hks)
+  · intro n hn hst p hp
+    simp only [eCollect, List.mem_append] at hst
+    rcases hst with h | h
+    · simp only [eCollect, List.mem_append]
+      exact Or.inl (h2 n hn h p hp)
+    · obtain ⟨n', hn', hkey, hpd⟩ := mem_eReady h
+      have := key_inj_of_nodup hk hn' hn hkey
+      subst this
+      exact hpd p hp
+  · simp only [eCollect, List.mem_append]; exact Or.inl h3
+  · intro x hx
+    simp only [eCollect, List.mem_append] at hx
+    rcases hx with hx | hx
+    · exact h4 x hx
+    · obtain ⟨n', hn', hkey, _⟩ := mem_eReady hx
+      exact Or.inr ⟨n', hn', hkey⟩
+
+theorem einv_loop {g : GCase} (hk : (g.nodes.map (·.key)).Nodup) (order : List Key) :
+    ∀ (fuel : Nat) {st : EState}, EInv g st → EInv g (eLoop g order fuel st)
+  | 0, _, hI => hI
+  | n + 1, st, hI => by
+    simp only [eLoop]
+    split
+    · exact hI
+    · cases hnx : eNext order st with
+      | none => exact hI
+      | some k =>
+        have hp := List.find?_some hnx
+        simp only [Bool.and_eq_true, List.contains_iff_mem] at hp
+        exact einv_loop hk order n (einv_collect hk hI hp.1)
+
+theorem einv_run {g : GCase} (hk : (g.nodes.map (·.key)).Nodup)
+    (hs : ∀ n ∈ g.nodes, n.key ≠ startKey) (order : List Key) : EInv g (eRun g order) :=
+  einv_loop hk order _ (einv_init hk hs)
+
+/-- while a node with a path to END is not collected, END is not ready -/
+theorem not_ready_of_reaches {g : GCase} {st : EState} (hI : EInv g st) {k : Key}
+    (hr : Reaches g k) : k ∉ st.done → eEndReady g st = false := by
+  induction hr with
+  | direct hmem =>
+    intro hnd
+    simp only [eEndReady, List.all_eq_false]
+    exact ⟨_, hmem, by simpa using hnd⟩
+  | via hn hp _ ih =>
+    intro hnd
+    apply ih
+    intro hdone
+    exact hnd (hI.predsDone _ hn (hI.doneStarted _ hdone) _ hp)
+
 end EinoV.C03
